@@ -113,9 +113,17 @@ CHECKS = [
         "alone, cancel_and_await not under contract",
         "contract-based deductive verification with loop invariant, exception-outcome model and rely (interference) at awaits (z3)",
         "DESIGN.md 3 (C10)"),
+    chk("C19", "proof",
+        "Deductive proof of MetricFetcher's primary/fallback switching against scripted streams on a common grid: forward-only "
+        "synchronisation of the fallback stream up to the primary sample's timestamp (loop invariant), invalid primary sample replaced "
+        "by the fallback sample of the same timestamp, valid primary used, fallback started lazily and once, failing primary falls "
+        "through to the fallback, and no other exception escapes. Found and repaired a genuine defect (fix: commit in /repo).",
+        "channel behaviour (receive returns the next sample or raises) is the scripted stream model; timestamps as integer grid ticks; "
+        "IEEE doubles for sample values; FallbackFormulaMetricFetcher's lazy engine creation not under contract",
+        "contract-based deductive verification with scripted stream collaborators and exception tables (z3)", "DESIGN.md 3 (C19)"),
 ]
 
 _PENDING = "check under construction in this session (contracts not yet written); will be claimed once its obligations discharge"
 NOT_APPLICABLE = [
     {"property_id": "C12", "reason": "formula generators are graph algorithms over networkx.DiGraph (recursive dfs, successor-set classification); no contract within reach of the VC generator expresses 'the generated formula balances for every valid graph' (DESIGN.md 4)"},
-] + [{"property_id": f"C{n:02d}", "reason": _PENDING} for n in (1, 2, 5, 6, 9, 19, 20)]
+] + [{"property_id": f"C{n:02d}", "reason": _PENDING} for n in (1, 2, 5, 6, 9, 20)]
